@@ -5,6 +5,9 @@ import (
 	"math"
 	"reflect"
 	"strings"
+	"time"
+	"unicode"
+	"unicode/utf8"
 )
 
 // C12 — Go data passed to a render is visible in the template with the same structure.
@@ -55,6 +58,27 @@ var c12LeafKinds = []struct {
 	{"array", []string{""}},
 	{"uintptr", []string{""}},
 	{"mapintkey", []string{""}},
+}
+
+// named types: their kinds are the supported ones
+type C12Int int
+type C12Str string
+type C12Flt float64
+type C12Bool bool
+type C12U8 uint8
+
+type C12Named struct {
+	N  C12Int
+	S  C12Str
+	F  C12Flt
+	B  C12Bool
+	U  C12U8
+	D  time.Duration
+	L  []C12Int
+	P  *C12Int
+	M  map[string]C12Str
+	Éa int
+	Ωb string
 }
 
 type C12Static struct {
@@ -148,7 +172,7 @@ var anyType = reflect.TypeOf((*any)(nil)).Elem()
 
 // c12Build constructs the Go value and its model.
 func c12Build(s GSpec) gBuilt {
-	if s.E == nil && s.K != "static" && s.K != "casemap" && s.K != "samename" {
+	if s.E == nil && s.K != "static" && s.K != "casemap" && s.K != "samename" && s.K != "named" {
 		return c12BuildLeaf(s)
 	}
 	if s.K == "samename" {
@@ -158,6 +182,13 @@ func c12Build(s GSpec) gBuilt {
 		cc, cm := c12RowC()
 		v := []any{a, b, cc, a}
 		return gBuilt{reflect.ValueOf(v), vArr(am, bm, cm, am), true, false}
+	}
+	if s.K == "named" {
+		seven := C12Int(7)
+		v := C12Named{N: 5, S: "s", F: 1.5, B: true, U: 200, D: 1500 * time.Millisecond, L: []C12Int{1, 2}, P: &seven, M: map[string]C12Str{"k": "v"}, Éa: 3, Ωb: "w"}
+		m := vObj("N", vInt(5), "S", vStr("s"), "F", vFloat(1.5), "B", vBool(true), "U", vInt(200), "D", vInt(1500000000), "L", vArr(vInt(1), vInt(2)), "P", vInt(7),
+			"M", vObj("k", vStr("v")), "Éa", vInt(3), "Ωb", vStr("w"))
+		return gBuilt{reflect.ValueOf(v), m, true, false}
 	}
 	if s.K == "casemap" {
 		v := map[string]any{"name": "lower", "Name": "upper", "id": 1, "ID": 2, "Url": "U"}
@@ -226,6 +257,9 @@ func c12Build(s GSpec) gBuilt {
 	panic("harness bug: composite kind " + s.K)
 }
 
+// c12ThinFrom: from this level on the recursion goes over one value per kind of the previous level only.
+var c12ThinFrom = 2
+
 func c12Specs(depth int) []GSpec {
 	var leaves []GSpec
 	for _, lk := range c12LeafKinds {
@@ -237,7 +271,7 @@ func c12Specs(depth int) []GSpec {
 	for d := 1; d < depth; d++ {
 		var next []GSpec
 		prev := levels[d-1]
-		if d >= 2 {
+		if d >= c12ThinFrom {
 			// deeper levels recurse over a thinner slice of the previous level (one value per kind)
 			var thin []GSpec
 			seen := map[string]bool{}
@@ -272,7 +306,8 @@ func c12Specs(depth int) []GSpec {
 	for _, l := range levels {
 		all = append(all, l...)
 	}
-	all = append(all, GSpec{K: "static"}, GSpec{K: "casemap"}, GSpec{K: "samename"})
+	all = append(all, GSpec{K: "static"}, GSpec{K: "casemap"}, GSpec{K: "samename"}, GSpec{K: "named"},
+		GSpec{K: "slice", N: 2, E: &GSpec{K: "named"}}, GSpec{K: "ptr", E: &GSpec{K: "named"}}, GSpec{K: "anymap", N: 1, E: &GSpec{K: "named"}})
 	return all
 }
 
@@ -299,12 +334,20 @@ func c12Paths(m Val, prefix string, out *[]c12Path, depth int) {
 		}
 	case VObj:
 		for k, e := range m.O {
-			c12Paths(e, prefix+"."+k, out, depth+1)
+			first, size := utf8.DecodeRuneInString(k)
+			ascii := first < utf8.RuneSelf
+			if ascii {
+				c12Paths(e, prefix+"."+k, out, depth+1) // dot syntax needs an ASCII identifier
+			}
 			c12Paths(e, prefix+`["`+k+`"]`, out, depth+1)
-			if k[0] >= 'A' && k[0] <= 'Z' {
-				lower := strings.ToLower(k[:1]) + k[1:]
+			if unicode.IsUpper(first) {
+				// "a field also with its first letter lower-cased"
+				lower := string(unicode.ToLower(first)) + k[size:]
 				if _, clash := m.O[lower]; !clash {
-					c12Paths(e, prefix+"."+lower, out, depth+1)
+					if ascii {
+						c12Paths(e, prefix+"."+lower, out, depth+1)
+					}
+					c12Paths(e, prefix+`["`+lower+`"]`, out, depth+1)
 				}
 			}
 		}
@@ -385,7 +428,7 @@ func c12Shape(s GSpec) string {
 func c12Run(c *Ctx) {
 	depth := 4
 	if c.Thorough() {
-		depth = 5
+		depth, c12ThinFrom = 6, 3 // the second composite level over every value of the first
 	}
 	specs := c12Specs(depth)
 	order := int64(0)
@@ -438,7 +481,8 @@ func init() {
 			"Non-trivial: the value is composite or contains an unsupported kind",
 		Bounds: func(tier string) map[string]any {
 			if tier == "thorough" {
-				return map[string]any{"depth": 5, "values": len(c12Specs(5))}
+				c12ThinFrom = 3
+				return map[string]any{"depth": 6, "full_levels": 2, "values": len(c12Specs(6))}
 			}
 			return map[string]any{"depth": 4, "values": len(c12Specs(4))}
 		},
